@@ -64,6 +64,9 @@ pub struct InFlight {
     pub sched_index: u64,
 }
 
+/// Mode of the execution in flight (0 none, 1 single-thread, 2 frame-wise, 3 multi-thread), for the watchdog.
+pub static CUR_MODE: std::sync::atomic::AtomicU8 = std::sync::atomic::AtomicU8::new(0);
+
 std::thread_local! {
     static JOB: RefCell<Option<Job>> = const { RefCell::new(None) };
     static OUT: RefCell<Option<Outcome>> = const { RefCell::new(None) };
@@ -436,6 +439,15 @@ impl BatchDriver for Driver {
             });
         });
         OUT.with(|o| *o.borrow_mut() = None);
+        CUR_MODE.store(
+            match plan.mode {
+                Mode::Single => 1,
+                Mode::Framewise => 2,
+                Mode::Par => 3,
+            },
+            std::sync::atomic::Ordering::SeqCst,
+        );
+        crate::rng::tick();
         let dec = Decider::new(plan.policy.clone(), plan.sched_seed, plan.replay.clone());
         let state = Rc::clone(&dec.state);
         INFLIGHT.with(|c| {
